@@ -51,15 +51,76 @@ impl Sink {
             self.put(&d);
         }
     }
+    // narrow variants: the same text, computed in the narrowest native type (128-bit division is what makes CBMC slow)
+    pub fn put_dec8(&mut self, v: u8) {
+        if v >= 100 {
+            let d = [b'0' + v / 100];
+            self.put(&d);
+        }
+        if v >= 10 {
+            let d = [b'0' + (v / 10) % 10];
+            self.put(&d);
+        }
+        let d = [b'0' + v % 10];
+        self.put(&d);
+    }
+    pub fn put_dec32(&mut self, v: u32) {
+        let mut digits = [0u8; 10];
+        let mut n = 0;
+        let mut x = v;
+        loop {
+            digits[n] = b'0' + (x % 10) as u8;
+            n += 1;
+            x /= 10;
+            if x == 0 {
+                break;
+            }
+        }
+        while n > 0 {
+            n -= 1;
+            let d = [digits[n]];
+            self.put(&d);
+        }
+    }
+    pub fn put_dec64(&mut self, v: u64) {
+        let mut digits = [0u8; 20];
+        let mut n = 0;
+        let mut x = v;
+        loop {
+            digits[n] = b'0' + (x % 10) as u8;
+            n += 1;
+            x /= 10;
+            if x == 0 {
+                break;
+            }
+        }
+        while n > 0 {
+            n -= 1;
+            let d = [digits[n]];
+            self.put(&d);
+        }
+    }
+    /// decimal text of the low `bits`-bit unsigned value
+    pub fn put_unsigned(&mut self, v: u128, bits: usize) {
+        if bits <= 8 {
+            self.put_dec8(v as u8);
+        } else if bits <= 32 {
+            self.put_dec32(v as u32);
+        } else if bits <= 64 {
+            self.put_dec64(v as u64);
+        } else {
+            self.put_dec(v);
+        }
+    }
     /// two's-complement reading of the low `bits` bits of v, printed in decimal
     pub fn put_signed(&mut self, v: u128, bits: usize) {
         let neg = (v >> (bits - 1)) & 1 == 1;
         if neg {
             self.put(b"-");
             let mag = if bits == 128 { (!v).wrapping_add(1) } else { (1u128 << bits) - v };
-            self.put_dec(mag);
+            self.put_unsigned(mag, bits);
         } else {
-            self.put_dec(v);
+            self.put_unsigned(v, bits);
         }
     }
     /// `Ok(` / `Err(` wrapper around an inner value: compact `Ok(x)`, pretty `Ok(\n<ind+4>x,\n<ind>)`
